@@ -167,6 +167,8 @@ def make_shims(S, hooks):
             S.yield_(("acquire", self), guard=lambda: self.owner is None or (self.re and self.owner is me))
             self.owner = me
             self.depth += 1
+            if self.depth == 1:
+                hooks.ev("lock", self, fn())
             return True
 
         def release(self):
